@@ -440,10 +440,35 @@ func tableAcmeRoutes(repo string) string {
 			}
 			fl, ok := s.Rhs[0].(*ast.FuncLit)
 			if !ok {
+				// `getPath := acme.GetUnescapedPathSuffix`: a plain alias of a function
+				if _, isSel := s.Rhs[0].(*ast.SelectorExpr); isSel {
+					continue
+				}
 				die("route: assignment is not a closure at %v", fset.Position(s.Pos()))
 			}
 			if len(fl.Body.List) != 1 {
-				die("route: closure body is not a single return at %v", fset.Position(fl.Pos()))
+				// the one closure with a body: commonMiddleware = linker.Middleware(checkPrerequisites(next)),
+				// optionally wrapped by the caller-supplied middleware; recognised by exactly these calls
+				param := fl.Type.Params.List[0].Names[0].Name
+				var sawLinker, sawPrereq bool
+				ast.Inspect(fl.Body, func(n ast.Node) bool {
+					if c, ok := n.(*ast.CallExpr); ok {
+						switch exprName(c.Fun) {
+						case "linker.Middleware":
+							sawLinker = true
+						case "checkPrerequisites":
+							if len(c.Args) == 1 && exprName(c.Args[0]) == param {
+								sawPrereq = true
+							}
+						}
+					}
+					return true
+				})
+				if !sawLinker || !sawPrereq {
+					die("route: closure body is not a single return at %v", fset.Position(fl.Pos()))
+				}
+				closures[s.Lhs[0].(*ast.Ident).Name] = []string{"linker.Middleware", "checkPrerequisites"}
+				continue
 			}
 			rs, ok := fl.Body.List[0].(*ast.ReturnStmt)
 			if !ok || len(rs.Results) != 1 {
